@@ -57,6 +57,14 @@ pub fn digest_of_stub(data: impl AsRef<[u8]>) -> ethdigest::Digest {
     digest_record::<12>(data.as_ref())
 }
 
+/// recorder for preimages up to 96 bytes (needs unwind >= 7)
+pub fn digest_of_stub96(data: impl AsRef<[u8]>) -> ethdigest::Digest {
+    digest_record::<6>(data.as_ref())
+}
+pub fn digest_expect96(i: usize, expected: &[u8], result: &[u8; 32]) {
+    digest_expect_n::<6>(i, expected, result)
+}
+
 /// recorder for preimages up to 80 bytes (needs unwind >= 6)
 pub fn digest_of_stub80(data: impl AsRef<[u8]>) -> ethdigest::Digest {
     digest_record::<5>(data.as_ref())
@@ -246,7 +254,7 @@ pub fn bytes_eq_sym<const CH: usize>(a: &[u8], b: &[u8]) -> bool {
 
 /// 32-byte equality without any loop.
 pub fn eq32(a: &[u8; 32], b: &[u8; 32]) -> bool {
-    bytes_eq(&a[..16], &b[..16]) & bytes_eq(&a[16..], &b[16..])
+    bytes_eq(&a[..16], &b[..16]) && bytes_eq(&a[16..], &b[16..])
 }
 
 /// Big-endian comparison `a < b` of 32-byte integers without a loop.
@@ -327,8 +335,16 @@ macro_rules! verif_harness {
 /// `core::fmt::write` stub: nothing is written. For parsers whose *error paths* render a message through
 /// `Display`/`to_string()` (serde's `Error::custom`, `hex::FromHexError`, `ParseIntError`): only Ok/Err is decided,
 /// the text of error messages is outside the claim. Never applied where a *result* depends on formatting.
+pub static mut FMT_WRITES: usize = 0;
 pub fn fmt_write_stub(_output: &mut dyn core::fmt::Write, _args: core::fmt::Arguments<'_>) -> core::fmt::Result {
+    unsafe { FMT_WRITES += 1; }
     Ok(())
+}
+
+/// `core::unicode::unicode_data::n::lookup` (the Unicode `N` table behind `char::is_numeric` for non-ASCII characters):
+/// unreachable for the ASCII inputs the grammar harnesses assume; reaching it is reported as a failure, not ignored.
+pub fn unicode_n_stub(_c: char) -> bool {
+    panic!("harness bound: non-ASCII character reached the Unicode numeric table");
 }
 
 /// `verif_harness!` plus the `core::fmt::write` stub (error messages empty).
